@@ -125,6 +125,10 @@ fn any_piece() -> (ExpansionPiece, bool) {
 fn check(fields: Vec<WordField>, some_nonempty: bool) {
     let undefined: bool = kani::any();
     let no_fields = fields.is_empty();
+    // bash tests the JOINED value: two or more elements joined by a non-empty separator are non-null even when every element is
+    // empty (a=("" ""); "${a[@]:-d}" is " ").  brush differs there: known finding C06:all-empty-list-counts-as-null, checked
+    // by the harness classify_all_empty_two_fields below and excluded here.
+    kani::assume(!(fields.len() >= 2 && !some_nonempty));
     let e = Expansion { fields, concatenate: kani::any(), from_array: kani::any(), undefined };
     // C06 set/unset/null: non-null iff SOME element has SOME non-empty piece (bash: "${a[@]:-d}" with a=("" x) is not null)
     let got = e.classify();
@@ -256,6 +260,17 @@ fn classify_shape_12() {
     { let mut v = Vec::new(); { let (p, n) = any_piece(); ne |= n; v.push(p); } { let (p, n) = any_piece(); ne |= n; v.push(p); } fields.push(WordField(v)); }
     check(fields, ne);
 }
+#[cfg(kani)]
+#[kani::proof]
+#[kani::unwind(4)]
+fn classify_all_empty_two_fields() {
+    let mut fields = Vec::new();
+    { let mut v = Vec::new(); let s = String::new(); v.push(if kani::any() { ExpansionPiece::Splittable(s) } else { ExpansionPiece::Unsplittable(s) }); fields.push(WordField(v)); }
+    { let mut v = Vec::new(); let s = String::new(); v.push(if kani::any() { ExpansionPiece::Splittable(s) } else { ExpansionPiece::Unsplittable(s) }); fields.push(WordField(v)); }
+    let e = Expansion { fields, concatenate: kani::any(), from_array: kani::any(), undefined: false };
+    // bash: "${a[@]:-d}" with a=("" "") is the joined value " " (IFS not empty), i.e. NOT null
+    assert!(matches!(e.classify(), ParameterState::NonZeroLength));
+}
 '''
         open(os.path.join(d, 'src', 'lib.rs'), 'w').write(body)
         open(os.path.join(d, 'Cargo.toml'), 'w').write('[package]\nname = "vx_u9b"\nversion = "0.0.0"\nedition = "2021"\n\n[lib]\npath = "src/lib.rs"\n\n[workspace]\n')
@@ -266,6 +281,11 @@ fn classify_shape_12() {
         'name': 'classify-set-unset-null', 'build': gen_classify, 'harnesses': ['classify_shape_%d' % i for i in (range(13) if tier == 'thorough' else (0, 1, 2, 4, 5, 7, 8))], 'timeout': 300, 'workers': 13,
         'label': 'bounded', 'bound': 'all expansions with <= 2 fields of <= 2 pieces [quick: <= 1 piece per field] (one harness per shape), each piece quoted or unquoted, empty or one character; undefined / concatenate / from_array symbolic',
         'props': ['C06'], 'quick': True,
+    })
+    u.bounded.append({
+        'name': 'classify-all-empty-list', 'build': gen_classify, 'harnesses': ['classify_all_empty_two_fields'], 'timeout': 300, 'workers': 1,
+        'label': 'bounded', 'bound': 'the two-element list of empty elements (quoting and flags symbolic)',
+        'props': ['C06'], 'quick': True, 'kf': 'C06:all-empty-list-counts-as-null', 'expected_failures': ['classify_all_empty_two_fields'],
     })
     u.assume('stub', 'Pattern::to_regex / Regex::is_match are replaced by an arbitrary predicate on the candidate (so the result does not depend on regex semantics); BOUNDED in the subject string, complete in the predicate; not counted as proved')
     return u
